@@ -188,18 +188,3 @@ def permute_cov(cov, perm, m):
     if cov.ndim == 2:
         return cov[idx][:, idx].copy()
     return cov[:, idx][:, :, idx].copy()
-
-
-def permute_output(name, value, perm, m):
-    """what output `name` of the original order must look like after reordering"""
-    v = np.asarray(value, dtype=float)
-    perm = list(perm)
-    if name == 'diff_var':
-        pos = pair_position(m)
-        return np.array([v[..., pos[(perm[a], perm[b])]] for a, b in pairs(m)], dtype=float).reshape(
-            v.shape[:-1] + (len(pairs(m)),)) if v.ndim == 1 else None
-    if name.startswith('p_pair'):
-        return v[perm][:, perm]
-    if name.startswith('ci'):
-        return v[:, perm]
-    return v[perm]
